@@ -12,6 +12,11 @@ type GenOpts struct {
 	Extensions bool // generate extensions with a dependency DAG, capabilities, repeated list entries
 	Profiles   bool // profiles pipelines and 4×4 connector support matrices
 	Routing    bool // routing-style connectors (need connector.XRouterAndConsumer, send to a subset)
+	// Names: in half of the kinds of half of the cases, component names, connector types and pipeline
+	// names come from a small alphabet of legal, easily confused spellings (ids that differ only in letter
+	// case, names that are prefixes of one another, names containing '/', '_', '-', '.', non-ASCII letters
+	// whose case mapping is special, names equal to a signal or type name, unnamed ids).
+	Names bool
 	// Invalid: probability (percent) per connector link of drawing an
 	// unconstrained link (backward, self, unsupported pair) or a half use.
 	Invalid int
@@ -52,6 +57,71 @@ func subset(t *rapid.T, label string, pool []string, min int) []string {
 	return append([]string(nil), perm[:k]...)
 }
 
+// nameGroups are legal component / pipeline names (component.ID and pipeline.ID accept any characters
+// except whitespace, control characters and symbols; ':', ';', '|' and '>' are left out because the harness
+// uses them as separators in its own keys).  The members of one group are easily confused with each other.
+var nameGroups = [][]string{
+	{"eu", "EU", "Eu", "eU"},                    // differ only in letter case
+	{"a", "A", "aa", "aA", "a/a", "a/A", "A/a"}, // case variants, prefixes of one another, '/' inside the name
+	{"a_b", "a-b", "a.b", "ab", "a/b", "A_B", "A-b"},
+	{"\u00e4", "\u00c4", "a\u0308", "A\u0308"}, // ä, Ä precomposed and decomposed
+	{"k", "K", "\u212a"},                       // KELVIN SIGN: lower-cases to k
+	{"i", "I", "\u0131", "\u0130"},             // dotless i, I with dot
+	{"logs", "LOGS", "Logs", "traces"},         // equal to a signal name
+	{"trecv", "texp", "tproc", "Trecv"},        // equal to a component type
+}
+
+// connTypes are the component types of connectors under GenOpts.Names (one factory per connector, so the
+// types of one configuration are distinct).
+var connTypes = []string{"tconnA", "tconna", "tconnAa", "tconnaa", "tconn_a", "tconn_A"}
+
+// drawNames draws n distinct names: as many as possible from one drawn group, the rest from the others.
+func drawNames(t *rapid.T, label string, n int) []string {
+	g := rapid.IntRange(0, len(nameGroups)-1).Draw(t, label+"-group")
+	out := append([]string(nil), rapid.Permutation(nameGroups[g]).Draw(t, label+"-names")...)
+	if len(out) >= n {
+		return out[:n]
+	}
+	var rest []string
+	for i, gr := range nameGroups {
+		if i != g {
+			rest = append(rest, gr...)
+		}
+	}
+	for _, x := range rapid.Permutation(rest).Draw(t, label+"-more") {
+		if len(out) < n && !contains(out, x) {
+			out = append(out, x)
+		}
+	}
+	return out
+}
+
+// idOf renders type[/name].
+func idOf(ty, name string) string {
+	if name == "" {
+		return ty
+	}
+	return ty + "/" + name
+}
+
+// compNames returns the names of n components of one kind: r0, r1, … or (GenOpts.Names, every other
+// time) drawn from the confusable alphabet, the last one sometimes left out altogether (an id that is
+// just the type).
+func compNames(t *rapid.T, o GenOpts, label, letter string, n int, unnamedOK bool) []string {
+	out := make([]string, n)
+	for i := range out {
+		out[i] = fmt.Sprintf("%s%d", letter, i)
+	}
+	if !o.Names || n == 0 || !rapid.Bool().Draw(t, label+"-confusable") {
+		return out
+	}
+	out = drawNames(t, label, n)
+	if unnamedOK && pct(t, label+"-unnamed", 25) {
+		out[rapid.IntRange(0, n-1).Draw(t, label+"-unnamed-at")] = ""
+	}
+	return out
+}
+
 func contains(xs []string, x string) bool {
 	for _, y := range xs {
 		if y == x {
@@ -72,22 +142,27 @@ func Gen(t *rapid.T, o GenOpts) Topology {
 	np := rapid.IntRange(0, 3).Draw(t, "nproc")
 	ne := rapid.IntRange(1, 3).Draw(t, "nexp")
 	nc := pick(t, "nconn", []int{1, 2, 0, 1, 2, 3})
+	// the unnamed form of an id is not generated together with the cross-signal shared types (IsShared
+	// looks for "type/")
+	rn := compNames(t, o, "recv", "r", nr, !o.Shared)
+	pn := compNames(t, o, "proc", "p", np, true)
+	en := compNames(t, o, "exp", "e", ne, !o.Shared)
 	for i := 0; i < nr; i++ {
 		ty := RecvType
 		if o.Shared && pct(t, "shared-recv", 40) {
 			ty = SharedRecvType
 		}
-		tp.Receivers = append(tp.Receivers, fmt.Sprintf("%s/r%d", ty, i))
+		tp.Receivers = append(tp.Receivers, idOf(ty, rn[i]))
 	}
 	for i := 0; i < np; i++ {
-		tp.Processors = append(tp.Processors, fmt.Sprintf("%s/p%d", ProcType, i))
+		tp.Processors = append(tp.Processors, idOf(ProcType, pn[i]))
 	}
 	for i := 0; i < ne; i++ {
 		ty := ExpType
 		if o.Shared && pct(t, "shared-exp", 40) {
 			ty = SharedExpType
 		}
-		tp.Exporters = append(tp.Exporters, fmt.Sprintf("%s/e%d", ty, i))
+		tp.Exporters = append(tp.Exporters, idOf(ty, en[i]))
 	}
 	signals := Signals
 	if o.Profiles {
@@ -99,8 +174,34 @@ func Gen(t *rapid.T, o GenOpts) Topology {
 			allPairs = append(allPairs, a+">"+b)
 		}
 	}
+	// connector ids: tconn<i>/c, or (GenOpts.Names) distinct types that differ in case / '_' only, with names
+	// from the confusable alphabet that may coincide between connectors
+	var cty, cn []string
+	var sameAs []int // connector whose type (factory, support matrix) this one shares, or -1
+	if o.Names && nc > 0 && rapid.Bool().Draw(t, "conn-confusable") {
+		types := rapid.Permutation(connTypes).Draw(t, "conn-types")[:nc]
+		pool := drawNames(t, "conn", nc)
+		taken := map[string]bool{}
+		for i := 0; i < nc; i++ {
+			ty, same := types[i], -1
+			// several connectors of one type (forward/a, forward/b …): one factory, ids differ in the name only
+			if i > 0 && rapid.Bool().Draw(t, "conn-same-type") {
+				same = rapid.IntRange(0, i-1).Draw(t, "conn-same-as")
+				ty = cty[same]
+			}
+			k := rapid.IntRange(0, nc-1).Draw(t, "conn-name")
+			for taken[idOf(ty, pool[k])] {
+				k = (k + 1) % nc
+			}
+			taken[idOf(ty, pool[k])] = true
+			cty, cn, sameAs = append(cty, ty), append(cn, pool[k]), append(sameAs, same)
+		}
+	}
 	for i := 0; i < nc; i++ {
 		c := Connector{ID: fmt.Sprintf("%s%d/c", connTypePrefix, i)}
+		if cty != nil {
+			c.ID = idOf(cty[i], cn[i])
+		}
 		// mostly an independently drawn support matrix (one fair coin per (from, to) cell, so asymmetric
 		// matrices are the norm); sometimes everything, sometimes the diagonal only
 		switch pick(t, "pairs-mode", []int{2, 0, 2, 1, 2}) {
@@ -117,6 +218,9 @@ func Gen(t *rapid.T, o GenOpts) Topology {
 				}
 			}
 		}
+		if sameAs != nil && sameAs[i] >= 0 {
+			c.Pairs = append([]string(nil), tp.Connectors[sameAs[i]].Pairs...)
+		}
 		c.Forward = rapid.Bool().Draw(t, "forward")
 		if o.Routing {
 			c.Route = pick(t, "route", []string{"", "all", "one", "some", ""})
@@ -130,10 +234,23 @@ func Gen(t *rapid.T, o GenOpts) Topology {
 	sigs := rapid.Permutation(signals).Draw(t, "sigperm")
 	nsig := rapid.IntRange(1, len(signals)).Draw(t, "nsig")
 	used := map[string]bool{}
+	// pipeline names: n<i>, or (GenOpts.Names) from the confusable alphabet: distinct within a signal, often
+	// equal between signals
+	var plNames []string
+	if o.Names && rapid.Bool().Draw(t, "pipe-confusable") {
+		plNames = drawNames(t, "pipe", npipe)
+	}
 	for i := 0; i < npipe; i++ {
 		pl := Pipeline{Signal: pick(t, "signal", sigs[:nsig])}
 		if !used[pl.Signal] && rapid.Bool().Draw(t, "unnamed") {
 			used[pl.Signal] = true
+		} else if plNames != nil {
+			j := rapid.IntRange(0, npipe-1).Draw(t, "pipe-name")
+			for used[pl.Signal+"/"+plNames[j]] {
+				j = (j + 1) % npipe
+			}
+			pl.Name = plNames[j]
+			used[pl.Signal+"/"+pl.Name] = true
 		} else {
 			pl.Name = fmt.Sprintf("n%d", i)
 		}
